@@ -169,13 +169,18 @@ impl Cfg {
                 // still open at the end of a segment, name that place: they are no names of
                 // the next instruction (`msg: .asciz "x"` in front of `f:` made msg a second
                 // name of the function f)
+                // (a directive that names the segment the program is already in ends nothing)
                 ParserNode::Directive(x) if x.dir == DirectiveType::DataSection => {
+                    if segment != Segment::Data {
+                        current_labels.clear();
+                    }
                     segment = Segment::Data;
-                    current_labels.clear();
                 }
                 ParserNode::Directive(x) if x.dir == DirectiveType::TextSection => {
+                    if segment != Segment::Text {
+                        current_labels.clear();
+                    }
                     segment = Segment::Text;
-                    current_labels.clear();
                 }
                 ParserNode::Directive(x)
                     if matches!(
